@@ -27,6 +27,7 @@ def oracleFor (prop : String) (o : Opts) (env : Env) (inN outN : Node) (diags : 
   else if prop == "C13" then oracleC13 o env inN outN
   else if prop == "C15" then oracleC15 o env inN outN
   else if prop == "C20" then oracleC20 o inN outN
+  else if prop == "C09" then oracleC09 o env inN outN
   else .skip "no-oracle"
 
 /-- unit lines: `(unit 'fn 'arg 'implResult)` -/
